@@ -13,7 +13,7 @@ Decided here (see DESIGN.md section 5, C13):
                  static object that is not std::atomic.
   W-mutex        which mutex a storage really has (compile-time witness).
 """
-from engine import build, flow, witness, callgraph
+from engine import build, flow, witness, callgraph, sym
 from engine.facts import subterms, top_term, tstr, cls_template, strip_ns
 
 LEVEL = 'other'
@@ -252,7 +252,7 @@ def check_proxy(run, db):
                 run.violation('R-LOCK-PROXY', inst, f.loc, why, site={'function': 'detail::locked_allocator::<dtor>', 'role': 'unlock on destruction'})
         elif f.kind == 'move-ctor':
             n += 1
-            nulls = [e for e in f.events() if e['ev'] == 'assign' and tstr(e['lhs']) == 'other.mutex_' and e['rhs'].get('null')]
+            nulls = [e for e in f.events() if e['ev'] == 'assign' and sym.canon(e['lhs'], {0: 'other'}) == '$other.mutex_' and e['rhs'].get('null')]
             if nulls and flow.must_pass_through(f, lambda e: e in nulls):
                 run.ok('R-LOCK-PROXY', inst, f.loc, 'move constructor nulls the source\'s mutex (no double unlock)')
             else:
